@@ -37,7 +37,7 @@ EXTRA_MODULES = {
     "C01": ["Proofs.C01", "Proofs.NoPanic", "Proofs.StdNoPanic", "Proofs.ArrNoPanic"],
     "C02": ["Proofs.C02"],
     "C03": ["Proofs.C03"],
-    "C20": ["Proofs.C20"],
+    "C20": ["Proofs.C20", "Proofs.C20Source"],
 }
 for _pid, _mods in EXTRA_MODULES.items():
     if _pid in PROPS:
